@@ -98,7 +98,7 @@ def get_eof_2qubit(rho:np.ndarray):
     if tmp0==0:
         ret = 0
     else:
-        tmp1 = (1 + np.sqrt(1-tmp0*tmp0))/2
+        tmp1 = (1 + np.sqrt(max(0, 1-tmp0*tmp0)))/2 #concurrence can round to 1+4e-16 for maximally entangled states
         tmp2 = 1 - tmp1 #exactly 0 for a tiny concurrence, 0*log(0)=0
         ret = -tmp1*np.log(tmp1) - (tmp2*np.log(tmp2) if tmp2>0 else 0)
     return ret
